@@ -392,7 +392,7 @@ func contexts(c Case) []ctx {
 		return cs
 	}
 	cs = append(cs, sel("select", "("+p+")"))
-	if !pbt.Open("C13", "select-bare-bool") || c.Bare {
+	if !(c.Target == "func" && pbt.Open("C13", "select-bare-bool-func")) || c.Bare {
 		cs = append(cs, sel("selectbare", p))
 	}
 	return cs
@@ -610,11 +610,8 @@ func runOne(c Case) (res pbt.Result) {
 
 func features(c Case) []string {
 	var f []string
-	if c.Bare {
-		f = append(f, "select-bare-bool")
-		if c.Target == "func" {
-			f = append(f, "case-func-null-test")
-		}
+	if c.Bare && c.Target == "func" {
+		f = append(f, "select-bare-bool-func", "case-func-null-test")
 	}
 	if c.Kind == "like" {
 		if strings.ContainsAny(c.Pattern, "é") {
